@@ -647,3 +647,29 @@ Proof.
   assert (B := schema_roundtrip_settings S2 tm sn H W2).
   rewrite E in A. rewrite A in B. congruence.
 Qed.
+
+(* ---------- histories: the target's previous content never matters ---------- *)
+Theorem step_ignores_target old1 old2 x : settings_ok (st_tm x) (st_sn x) = true ->
+  graphql_schema_step old1 x = graphql_schema_step old2 x.
+Proof. unfold graphql_schema_step. intros ->. reflexivity. Qed.
+
+Lemma history_snoc old h x : run_history old (h ++ [x]) = graphql_schema_step (run_history old h) x.
+Proof. unfold run_history. rewrite fold_left_app. reflexivity. Qed.
+
+(* after any history, the target is the fresh output of the last accepted step *)
+Theorem history_is_last_step old h x : settings_ok (st_tm x) (st_sn x) = true ->
+  run_history old (h ++ [x]) = Some (fresh_output x).
+Proof. intro H. rewrite history_snoc. unfold graphql_schema_step. rewrite H. reflexivity. Qed.
+
+Theorem history_refused_keeps old h x : settings_ok (st_tm x) (st_sn x) = false ->
+  run_history old (h ++ [x]) = run_history old h.
+Proof. intro H. rewrite history_snoc. unfold graphql_schema_step. rewrite H. reflexivity. Qed.
+
+(* so a .py target always evaluates back to the schema of the last accepted step, whatever came before *)
+Theorem history_roundtrip old h x : settings_ok (st_tm x) (st_sn x) = true -> st_format x = FPy ->
+  wf_gen dv_val (st_schema x) = true ->
+  exists m, run_history old (h ++ [x]) = Some (CModule m) /\ eval_module m = Some (strip_std (st_schema x)).
+Proof.
+  intros H F W. rewrite (history_is_last_step old h x H). unfold fresh_output. rewrite F.
+  eexists. split; [reflexivity|]. apply schema_roundtrip_settings; assumption.
+Qed.
